@@ -20,11 +20,11 @@ for p in props:
         "engine": "mv-worker",
         "level_claimed": {
             "category": "exploration",
-            "text": cfg.get("level_text", "runtime monitoring: the real library (built from /repo's working tree) is driven by directed, bounded-exhaustive and seeded random workloads while independent reference oracles and process-level monitors (panic hook, abort supervision, allocation and CPU monitors) observe every result; held on the executions listed in the evidence file, nothing more"),
+            "text": cfg.get("level_text", "runtime monitoring: the real library (built from /repo's working tree) is driven by directed, bounded-exhaustive and seeded random workloads while independent reference oracles and process-level monitors (panic hook, abort supervision, allocation and CPU monitors, heap canaries / page fences / poison comparison) observe every result; held on the executions listed in the evidence file, nothing more"),
             "design_ref": "DESIGN.md §6 " + pid,
         },
         "level_note": cfg.get("level_note", "trusted: the reference oracles in harness/src/refs (self-calibrated against the repository's golden files on every run), encoding_rs codec tables, rustc/cargo; lanes: " + ", ".join(sorted({l["lane"] for t in ("quick", "thorough") for l in cfg[t]}))),
-        "technique": cfg.get("technique", "runtime monitoring: differential reference-model and offline image-checker monitors over generated workloads; panic/abort/allocation monitors; sanitizer lanes (ASan, Miri, memcheck) in the thorough tier"),
+        "technique": cfg.get("technique", "runtime monitoring: differential reference-model and offline image-checker monitors over generated workloads; panic/abort/allocation/CPU monitors; home-made memory monitors on the native lanes (tight and page-fenced buffers, guard-mode allocator with canaries, poison and sampled page fences, calls repeated under two poison bytes); sanitizer lanes (ASan, Miri, memcheck) in the thorough tier"),
     })
 na = []
 for p in props:
